@@ -139,7 +139,7 @@ CLAIMED = {
             'Premise: U+0020 is white space for the oracle (checked on the interpreter tables).', 'DESIGN.md section 4 C01'),
     'C04': ('Coq proof: a text that spells one stored name (any case, any white space, also around parentheses) is tokenized to exactly '
             'one token over its whole span and parsed to the owning symbol, strict or not (recognise_alone, recognise_name); over a table '
-            'Licensing() accepted without operator words in its names the owner is the entry that declares the name (accepted_name_resolves); '
+            'Licensing() accepted (names with operator words or parentheses included) the owner is the entry that declares the name (accepted_name_resolves); '
             'look-ups depend only on lower-cased words + every name of generated tables in case / white-space variants and 12 operator contexts',
             'Theorems over the matcher and parser model for every table and text. The operator contexts (a name next to operators and '
             'other names) are decided by the oracle (expected tree built from the intended symbols) and the correspondence.',
